@@ -23,6 +23,15 @@ impl SliceConstructor {
     }
 
     pub fn process_slice(&mut self, slice_index: usize, bytes: &[u8]) -> Result<Option<Bytes>, ChannelError> {
+        if slice_index >= self.num_slices {
+            log::error!(
+                "Invalid slice_index for SliceMessage, got {}, expected less than {}.",
+                slice_index,
+                self.num_slices,
+            );
+            return Err(ChannelError::InvalidSliceMessage);
+        }
+
         let is_last_slice = slice_index == self.num_slices - 1;
         if is_last_slice {
             if bytes.len() > SLICE_SIZE {
